@@ -887,6 +887,11 @@ class Engine:
                     vals.append(v)
                     c = self.truth_of(v)
                     conds.append(c)
+                    cs_ = z3.simplify(c)
+                    if (is_and and z3.is_false(cs_)) or (not is_and and z3.is_true(cs_)):
+                        # Python would not evaluate the remaining operands (they may not even make sense, e.g.
+                        # `isinstance(r, tuple) and r[0] == ...` for an integer r)
+                        break
                     self.run.cond_stack.append(c if is_and else z3.Not(c))
                     pushed += 1
             finally:
